@@ -11,6 +11,9 @@
 """
 from __future__ import annotations
 
+import base64
+import pickle
+
 import sys
 import time
 import warnings
@@ -67,7 +70,7 @@ def reads_case(item) -> Dict[str, Any]:
         for b in r['bad']:
             rb = replay_values(prog, pb['Model'], b['witness'], seed=vlib.seed())
             out['bad'].append({'what': '; '.join(b['symbolic'][:3]) + f' [{spelling}]', 'replayed': bool(rb),
-                               'values': {'text': text, 'witness': b['witness'], 'concrete': rb}})
+                               'values': {'text': text, 'witness': b['witness'], 'concrete': rb, 'program_pickle': base64.b64encode(pickle.dumps(prog)).decode()}})
     return out
 
 
@@ -277,7 +280,7 @@ def main() -> int:
             for N in (1, 2):
                 items.append(('rejected', lf.default_cfg(N=N, B=1, errors=errors, t=t, offset=offset, finite=False,
                                                          faults=False, with_z=True)))
-    results = run_items(dispatch, items)
+    results = run_items(dispatch, items, soft_items=[('reads', (p, None)) for p in ps['sampled']])
     twins = [dispatch(('reads', (LAGGED[0], 'lags_zero'))),
              dispatch(('frame', (LAGGED[0], 1, 1, 1, 'raise', 'ignore', False, 'forbid_t'))),
              dispatch(('infeasible', (LAGGED[0], 1, 'ignore', 'feasible')))]
